@@ -245,7 +245,7 @@ fn exec_fault_zoneinfo(f: &Fault) {
             });
             step_done(kind, Some(*name));
         }
-        Fault::Rewrite { name, content } => {
+        Fault::Rewrite { name, content, abandon } => {
             let n = uname(*name);
             let bytes = content.bytes();
             let half = bytes.len() / 2;
@@ -272,12 +272,18 @@ fn exec_fault_zoneinfo(f: &Fault) {
                 r.disk.fd_truncate(&file, t);
             });
             step_done_with(kind, Some(*name), &file);
+            if *abandon == 1 {
+                return; // the writer crashed: the empty file stays
+            }
             sim::yield_point("fault.rewrite.1");
             with_run(|r| {
                 let t = r.disk.fresh_mtime();
                 r.disk.fd_write_at(&file, 0, &bytes[..half], t);
             });
             step_done_with(kind, Some(*name), &file);
+            if *abandon == 2 {
+                return; // the writer crashed: the torn file stays
+            }
             sim::yield_point("fault.rewrite.2");
             with_run(|r| {
                 let t = r.disk.fresh_mtime();
@@ -402,7 +408,7 @@ fn exec_fault_concatenated(f: &Fault) {
             write_image(entries, *mtime_none);
             step_done(kind, Some(*name));
         }
-        Fault::Rewrite { name, content } => {
+        Fault::Rewrite { name, content, abandon } => {
             let new = content.bytes();
             // Layout-preserving only: same name set, same blob size.
             let place = with_run(|r| {
@@ -442,6 +448,9 @@ fn exec_fault_concatenated(f: &Fault) {
                         }
                     });
                     step_done_with(kind, Some(*name), &file);
+                    if *abandon != 0 {
+                        return; // the writer crashed: the torn blob stays
+                    }
                     sim::yield_point("fault.rewrite.1");
                     with_run(|r| {
                         let t = r.disk.fresh_mtime();
